@@ -35,6 +35,7 @@ def proxied(value):
 
 
 VALS = [-1, 0, 1]
+NUMS = [-1, 0, 1, 1.0, 0.0, 2.5, True]      # equal values of different numeric kinds: 1 / 1.0 / True, 0 / 0.0
 LISTS = [[], [0], [0, 1], [1]]
 
 # (name, class, python relation on (a, b), right operand kind)
@@ -60,9 +61,10 @@ def _recorded_ok(r, fb, failed):
     return n_active == (1 if failed else 0) and n_ignored == (0 if failed else 1) and bool(fb) == failed
 
 
-def public_rel(a0: bool, a1: bool, b0: bool, b1: bool, wl: bool, wr: bool) -> bool:
+def public_rel(a0: bool, a1: bool, a2: bool, b0: bool, b1: bool, b2: bool, wl: bool, wr: bool) -> bool:
     """
-    The full public call assert_x(left, right, report=r) (x = partition) on a small value grid, each operand raw or
+    The full public call assert_x(left, right, report=r) (x = partition) on a small value grid (for the numeric relations:
+    ints, floats and a bool incl. equal values of different kinds), each operand raw or
     proxied: the assertion object is truthy and recorded as triggered exactly when the Python relation does NOT hold.
 
     pre: True
@@ -73,12 +75,13 @@ def public_rel(a0: bool, a1: bool, b0: bool, b1: bool, wl: bool, wr: bool) -> bo
     k = int(PART) if PART else 2
     name, cls, rel, kind = RELS[k]
     ia, ib = bits(a0, a1), bits(b0, b1)
-    if ia >= 3:
-        return True
     if kind == "int":
-        if ib >= 3:
+        ia, ib = bits(a0, a1, a2), bits(b0, b1, b2)
+        if ia >= len(NUMS) or ib >= len(NUMS):
             return True
-        a, b = VALS[ia], VALS[ib]
+        a, b = NUMS[ia], NUMS[ib]
+    elif ia >= 3:
+        return True
     elif kind == "list":
         a, b = VALS[ia], LISTS[ib]
     elif kind == "len":
@@ -236,7 +239,7 @@ def public_kwargs(k0: bool, k1: bool, k2: bool, a0: bool, a1: bool, b0: bool, b1
     return _recorded_ok(r, fb, not holds)
 
 
-def unit_tests(p0: bool, p1: bool, p2: bool, n0: bool, n1: bool) -> bool:
+def unit_tests(p0: bool, p1: bool, p2: bool, n0: bool, n1: bool, unevaluable: bool) -> bool:
     """
     unit_test('f', cases...) on a real student function f(x) = x with 1..3 cases whose expected values are right or
     wrong as chosen: succeeds exactly when all cases pass; the group reports the true pass count.
@@ -256,11 +259,18 @@ def unit_tests(p0: bool, p1: bool, p2: bool, n0: bool, n1: bool) -> bool:
     get_sandbox().result_proxy_class = None     # raw results: the proxy class cannot be constructed under tracing
     try:
         cases = [((i,), i if ok else i + 100) for i, ok in enumerate(passes)]
-        result = unit_test("f", *cases)
+        if unevaluable:
+            # a case whose comparison cannot be evaluated (str result against an int with assert_less) counts as NOT passing
+            cases.append((("a",), 5))
+        result = unit_test("f", *cases, **({"assert_function": R.assert_less_equal} if unevaluable else {}))
         groups = [f for f in MAIN_REPORT.feedback + MAIN_REPORT.ignored_feedback if isinstance(f, assert_group)]
         if len(groups) != 1:
             return False
         g = groups[0]
+        if unevaluable:
+            # with assert_less_equal: case (i,) -> i <= expected; the passing cases still pass (i <= i), the failing ones
+            # also pass (i <= i + 100); only the unevaluable one does not: success_count must not include it
+            return (bool(result) is False and g.fields["success_count"] == len(passes) and bool(g) is True)
         return (bool(result) == all(passes) and g.fields["success_count"] == sum(1 for p in passes if p)
                 and g.fields["failure_count"] == sum(1 for p in passes if not p) and bool(g) == (not all(passes)))
     finally:
